@@ -160,6 +160,14 @@ func (l *Loaded) keyLayoutEnv(fn *ssa.Function, env *klEnv, depth int) *keyLayou
 				return seg{kind: "var", field: f, src: s}
 			}
 		}
+		// a string copied into the key as it is (copy(dst, s)): the same bytes as []byte(s)
+		if b, ok := v.Type().Underlying().(*types.Basic); ok && b.Kind() == types.String {
+			cx, _ := env.resolve(v)
+			f := lastField(Sym(cx))
+			if f == "Owner" || f == "Provider" || f == "Auditor" {
+				return seg{kind: "addrstr", field: f, src: Sym(cx)}
+			}
+		}
 		if call, ok := v.(*ssa.Call); ok && calleeMethod(call) == "Bytes" {
 			recv := call.Common()
 			var rv ssa.Value
@@ -258,6 +266,27 @@ func (l *Loaded) keyLayoutEnv(fn *ssa.Function, env *klEnv, depth int) *keyLayou
 				} else {
 					fail("non-constant rune")
 				}
+			case strings.HasSuffix(full, "ndian).PutUint64") || strings.HasSuffix(full, "ndian).PutUint32") || strings.HasSuffix(full, "ndian).PutUint16"):
+				// binary.BigEndian.PutUintNN(key[pos:], v): a fixed-width segment at the running offset
+				if !strings.Contains(full, "bigEndian") {
+					fail("little-endian number in a key: numeric order is not byte order")
+				}
+				if loopHeaderOf(b) != nil {
+					fail("number written into the key inside a loop")
+				}
+				v := stripConv(args[len(args)-1])
+				v, _ = env.resolve(v)
+				v = stripConv(v)
+				n := 8
+				if strings.HasSuffix(full, "32") {
+					n = 4
+				} else if strings.HasSuffix(full, "16") {
+					n = 2
+				}
+				if w := intWidth(v.Type()); w != 0 && int(w/8) > n {
+					fail("field %s (%d bits) is written as %d bits: ids that differ only in the dropped bits share one key", lastField(Sym(v)), w, n*8)
+				}
+				kl.segs = append(kl.segs, seg{kind: "fixed", n: n, field: lastField(Sym(v)), src: Sym(v)})
 			case full == "encoding/binary.Write":
 				written := args[2]
 				if mi, isMI := written.(*ssa.MakeInterface); isMI {
